@@ -795,11 +795,11 @@ func batchRetry(t *testing.T, res *h.Result, r *rand.Rand) {
 		L := r.IntN(8)
 		script := make([]byte, L)
 		for i := range script {
-			script[i] = "ttttpo"[r.IntN(6)]
+			script[i] = "ttttpoc"[r.IntN(7)] // c: the operation's own work cancels the context, then fails transiently
 		}
 		maxAtt := r.IntN(7)
 		cfg := leader.RetryConfig{MaxAttempts: maxAtt, BackoffConfig: leader.BackoffConfig{
-			InitialBackoff:    time.Duration(r.Int64N(int64(200*time.Millisecond)) + 1),
+			InitialBackoff:    []time.Duration{0, time.Duration(r.Int64N(int64(200*time.Millisecond)) + 1), time.Duration(r.Int64N(int64(200*time.Millisecond)) + 1), time.Duration(r.Int64N(int64(200*time.Millisecond)) + 1)}[r.IntN(4)],
 			MaxBackoff:        time.Duration(r.Int64N(int64(2*time.Second)) + 1),
 			BackoffMultiplier: []float64{1, 2, 3}[r.IntN(3)],
 			Jitter:            []float64{0, 0.1, 0.5}[r.IntN(3)],
@@ -815,6 +815,7 @@ func batchRetry(t *testing.T, res *h.Result, r *rand.Rand) {
 		var ret error
 		var ctxErrAtEnd error
 		var cancelledAt time.Duration = -1
+		cancelCall := -1 // index of the invocation during which the context was cancelled
 		synctest.Test(t, func(t *testing.T) {
 			start := time.Now()
 			ctx, cancel := context.WithCancel(context.Background())
@@ -839,6 +840,15 @@ func batchRetry(t *testing.T, res *h.Result, r *rand.Rand) {
 				}
 				switch c {
 				case 't':
+					return errTransient
+				case 'c':
+					if cancelCall < 0 {
+						cancelCall = len(calls) - 1
+						if cancelledAt < 0 {
+							cancelledAt = time.Since(start)
+						}
+						cancel()
+					}
 					return errTransient
 				case 'p':
 					return errPermanent
@@ -879,6 +889,9 @@ func batchRetry(t *testing.T, res *h.Result, r *rand.Rand) {
 			}
 			if cancelledAt >= 0 && calls[i] > cancelledAt {
 				addViol(res, "C17", "retry-after-cancel", "retry-called-after-cancel", desc)
+			}
+			if cancelCall >= 0 && i > cancelCall {
+				addViol(res, "C17", "retry-after-cancel", "retry-called-after-cancel:same-instant", desc)
 			}
 		}
 		// return value class
